@@ -36,6 +36,9 @@ CONTEXTS = [",", ")", " ,", "\t\n)", ""]           # delimiter contexts (the emp
 COMMENT_CTX = ["/*c*/,", " /* c **/ )"]            # comment between the value and its delimiter (odd / even run of `*`)
 
 
+EXTRACTORS = ["p21lex", "enums", "p21rw", "attrnull", "stepfile"]
+
+
 def hx(b):
     if isinstance(b, str):
         b = b.encode("latin-1")
@@ -687,9 +690,11 @@ def setup(ctx):
         "entity references: instance manager abstracted to a look-up (found / wrong type / missing); addFileId = 0",
     ]
     # the driver does not depend on the theorems: build it first so that the violation search runs even when a proof breaks
-    files, errs = L.regenerate(["p21lex", "enums"], repo=B.REPO)
+    # p21rw / attrnull / stepfile: the aggregate theorems and the `ag` driver command run on the reader model of P21/Reader.lean
+    # (property C01), whose generated tables must come from the tree being checked as well
+    files, errs = L.regenerate(EXTRACTORS, repo=B.REPO)
     okd, outd = L.lake_build(["m_c09"])
-    proof_ok = ctx.lean("StepModel.Props.C09", exes=["m_c09"], extractors=["p21lex", "enums"])
+    proof_ok = ctx.lean("StepModel.Props.C09", exes=["m_c09"], extractors=EXTRACTORS)
     if not okd:
         raise RuntimeError("model driver m_c09 does not build: " + outd[-1500:])
     return proof_ok
